@@ -505,7 +505,64 @@ def oracle(ctx, hints=()):
                          'known_id': None})
     finally:
         xfab.CHECKS.activated = True
-    return {'evaluations': evals, 'distinct_nontrivial': nontriv, 'violations': viol, 'samples': [sample], 'stats': stats, 'exhaustive': False}
+    cap = import_capture_probe(ctx.rng)
+    viol += cap
+    stats['import_capture_probes'] = 2 * 3 * 3
+    return {'evaluations': evals + 18, 'distinct_nontrivial': nontriv, 'violations': viol, 'samples': [sample], 'stats': stats, 'exhaustive': False}
+
+
+def _load_fresh(modname):
+    """the module's source executed into a fresh namespace (as a first import would)"""
+    import importlib, warnings
+    m = importlib.import_module('xfab.' + modname)
+    with warnings.catch_warnings():
+        warnings.simplefilter('ignore')
+        code = compile(open(m.__file__).read(), m.__file__, 'exec')
+    ns = {'__name__': 'xfab.' + modname, '__file__': m.__file__, '__package__': 'xfab'}
+    exec(code, ns)
+    return ns
+
+
+def import_capture_probe(rng, replay_case=None):
+    """the switch must be read at CALL time: a module that is first imported while the switch is off (on) and used after it was
+    turned on (off) behaves like any other.  Each guarded module is loaded afresh under one state of the switch, the switch is flipped,
+    and one guarded API per module is called with a clearly invalid matrix."""
+    import xfab
+    out = []
+    bad = np.array([[1.0, 0.2, 0.0], [0.0, 1.0, 0.0], [0.0, 0.0, 1.0]])          # sheared: not orthonormal
+    good = np.eye(3)
+    apis = {'tools': [('u_to_rod', (bad,)), ('u_to_euler', (bad,)), ('u_to_ubi', (bad, [4.0, 5.0, 6.0, 90.0, 90.0, 90.0]))],
+            'laue': [('u_to_rod', (bad,)), ('u_to_euler', (bad,)), ('u_to_ubi', (bad, [4.0, 5.0, 6.0, 90.0, 90.0, 90.0]))],
+            'symmetry': [('Umis', (bad, good, 7)), ('Umis', (good, bad, 4)), ('Umis', (bad, bad, 1))]}
+    try:
+        for at_import in (False, True):
+            for modname, calls in apis.items():
+                if replay_case and (replay_case['module'], replay_case['switch_at_import']) != (modname, at_import):
+                    continue
+                xfab.CHECKS.activated = at_import
+                try:
+                    ns = _load_fresh(modname)
+                finally:
+                    xfab.CHECKS.activated = not at_import
+                for fn, args in calls:
+                    try:
+                        with np.errstate(all='ignore'):
+                            ns[fn](*[a.copy() if isinstance(a, np.ndarray) else a for a in args])
+                        raised = False
+                    except ValueError:
+                        raised = True
+                    except Exception:
+                        raised = None          # the function's own business once the guard is off
+                    want = (not at_import) and bool(__debug__)         # switch now ON -> must reject; now OFF -> must not raise the check
+                    if (want and raised is not True) or (not want and raised is True and at_import):
+                        out.append({'fn': '%s.%s' % (modname, fn), 'program': [], 'import_capture': True, 'module': modname,
+                                    'switch_at_import': at_import, 'switch_at_call': not at_import,
+                                    'what': 'module first executed while CHECKS.activated was %s, called after it was set to %s' % (at_import, not at_import),
+                                    'observed': 'raised ValueError' if raised else 'no ValueError',
+                                    'expected': 'ValueError' if want else 'no ValueError from the input checks', 'known_id': None})
+    finally:
+        xfab.CHECKS.activated = True
+    return out
 
 
 def replay(payload):
@@ -513,6 +570,10 @@ def replay(payload):
     if not v:
         print('replay: broken obligation, no input stored:', payload.get('broken'))
         return 1
+    if v.get('import_capture'):
+        res = import_capture_probe(None, replay_case=v)
+        print('replay C20 %s (%s) ->' % (v['fn'], v.get('what')), 'VIOLATION' if res else 'holds')
+        return 1 if res else 0
     res = run_program(v.get('program') or [])
     print('replay C20 %s (program of %d operations) ->' % (v['fn'], len(v.get('program') or [])), 'VIOLATION' if res else 'holds')
     if res:
